@@ -35,7 +35,8 @@ Record policy := {
   p_user : option str;             (* "User" *)
   p_valid : option str;            (* "ValidCommands" (server side only) *)
   p_authmethods : option str;      (* "AuthMethods" *)
-  p_crypto : option str            (* "CryptoMethods" *)
+  p_crypto : option str;           (* "CryptoMethods" *)
+  p_client_side : option bool      (* "CedarClientSideSession": the record storeClientSession makes *)
 }.
 
 Record entry := {
@@ -75,6 +76,18 @@ Definition usable_key (e : entry) : option bytes :=
   end.
 Definition has_usable_key (e : entry) : bool :=
   match usable_key e with Some _ => true | None => false end.
+(* sessionIsClientSide *)
+Definition is_client_side (e : entry) : bool :=
+  match e_policy e with
+  | Some p => match p_client_side p with Some b => b | None => false end
+  | None => false
+  end.
+(* sameSessionKey: the same non-empty key *)
+Definition same_key (a b : option key_info) : bool :=
+  match a, b with
+  | Some x, Some y => match k_data x with [] => false | _ => bytes_eqb (k_data x) (k_data y) end
+  | _, _ => false
+  end.
 
 (* ---- the two maps ------------------------------------------------------ *)
 Definition id_is (id : str) (e : entry) : bool := bytes_eqb (e_id e) id.
@@ -227,16 +240,30 @@ Definition client_entry (now : Z) (tag addr : str) (r : full_ok) : entry :=
   let dur := if f_dur r =? 0 then 3600 else f_dur r in
   let lease := if f_lease r =? 0 then 1800 else f_lease r in
   let pol := {| p_authenticated := None; p_user := f_user r; p_valid := None;
-                p_authmethods := Some (f_authmethods r); p_crypto := Some (f_crypto r) |} in
+                p_authmethods := Some (f_authmethods r); p_crypto := Some (f_crypto r);
+                p_client_side := Some true |} in
   {| e_id := f_sid r; e_addr := addr; e_tag := tag; e_key := f_key r;
      e_policy := Some pol; e_exp := Some (now + dur); e_lease := lease |}.
 (* if ValidCommands != "" { strings.Split(ValidCommands, ",") } *)
 Definition raw_cmds (valid : str) : list str :=
   match valid with [] => [] | v => split_commas v end.
-Definition store_client_session (c : cache) (now : Z) (tag addr : str) (r : full_ok) : cache :=
+(* The entry is stored unless the cache already holds, under the same id, a live record
+   that is not a client-side one: if that record carries the very key just negotiated it
+   is the server-side record of this session (client and server in one process sharing
+   the cache) and the commands are filed to it; otherwise it is an unrelated session and
+   nothing at all is cached. *)
+Definition map_cmds (c : cache) (tag addr : str) (r : full_ok) : cache :=
   fold_left (fun c' cmd => let cmd' := trim_space cmd in
                            match cmd' with [] => c' | _ => map_command c' tag addr cmd' (f_sid r) end)
-            (raw_cmds (f_valid r)) (store_new c (client_entry now tag addr r)).
+            (raw_cmds (f_valid r)) c.
+Definition store_client_session (c : cache) (now : Z) (tag addr : str) (r : full_ok) : cache :=
+  match lookup c now (f_sid r) with
+  | Some ex =>
+      if is_client_side ex then map_cmds (store_new c (client_entry now tag addr r)) tag addr r
+      else if same_key (e_key ex) (f_key r) then map_cmds c tag addr r
+      else c
+  | None => map_cmds (store_new c (client_entry now tag addr r)) tag addr r
+  end.
 
 (* resumeSession: effects on the cache and the result *)
 Definition resume_session (c : cache) (now : Z) (e : entry) (p : peer) : cache * outcome :=
